@@ -17,11 +17,16 @@ NA = {
 "C19":"the unit-time model is lock-step: exactly one schedule per program, nothing for a scheduler to choose",
 "C20":"__eq__ is a pure binary function of two values",
 }
-E2_NOTE = ("Trusted base: reference Jaqal machine R2 (task-per-branch, seeded scheduler, tensor-contraction state update), resolver R1, meaning extractor X, "
+E2_NOTE_OLD = ("Trusted base: reference Jaqal machine R2 (task-per-branch, seeded scheduler, tensor-contraction state update), resolver R1, meaning extractor X, "
            "shared gate matrices. Bounds: n<=4 qubits, <=25 generated statements, nesting<=5, loop counts<=3; brackets whose prepare and measure do not share "
            "their chain of enclosing loops are excluded (statement ambiguous there). Sampling over seeds, not enumeration.")
+E2_NOTE = ("Trusted base: reference Jaqal machine R2 (task-per-branch, seeded scheduler, tensor-contraction state update), resolver R1 (also the validity filter of the generator), "
+           "meaning extractor X, gate matrices shared between emulator and reference (four conventions switched between runs). Bounds: registers up to 6 qubits, <=25 generated statements, nesting<=5, "
+           "loop counts<=3 (quick) / one subcircuit visited 70 000 times (thorough only); brackets whose prepare and measure do not share their chain of enclosing loops are excluded "
+           "(statement ambiguous there). Runs execute in chunks inside one forked process; state the library keeps between calls is reported through chain replay. Sampling over seeds, not enumeration.")
 E1_NOTE = ("Trusted base: identity-aware deep snapshot R4, meaning extractor X, twin/other-order executions as reference. Bounds: histories of 4-20 operations, pool<=6, "
-           "programs<=25 statements. Pre-emptive threads are not simulated (no property mentions them). Sampling over seeds, not enumeration.")
+           "programs<=25 statements. Pre-emptive threads are not simulated (no property mentions them); interleaving is explored as operation order, as nesting at the two re-entrancy points "
+           "(gate matrix functions, pulse-module top level) and as cancellation at an arbitrary line event. Sampling over seeds, not enumeration; C16's per-text truncation/flip sweep is exhaustive for the swept text.")
 CHECKS = {
  "C03": ("E2", "seeded scheduler of parallel branches + simulator-owned sampler vs reference Jaqal machine (deterministic simulation)",
    "Seeded search over programs x branch interleavings (reference machine: two gate-granularity schedules; real emulator: permuted written branch order) x sampler histories x emulate-again-on-the-same-object; state vectors and probabilities compared with an independent tensor-contraction reference to 1e-9. Exploration is the right level: the statement quantifies over all programs and interleavings, which can only be sampled.", E2_NOTE),
